@@ -1252,9 +1252,9 @@ class OperatorVectorSum(Operator):
             raise TypeError('`op` {!r} not a Operator instance'
                             ''.format(operator))
 
-        if not isinstance(operator.range, LinearSpace):
-            raise TypeError('`op.range` {!r} not a LinearSpace instance'
-                            ''.format(operator.range))
+        if not isinstance(operator.range, (LinearSpace, Field)):
+            raise TypeError('`op.range` {!r} not a LinearSpace or Field '
+                            'instance'.format(operator.range))
 
         super(OperatorVectorSum, self).__init__(
             operator.domain, operator.range)
